@@ -278,6 +278,22 @@ def boundary_sessions(rep, pid, tier, relevant, n=None):
     return cnt
 
 
+def parsed_sessions(rep, pid, tier, relevant, n=None):
+    """the renderings of random parsed sessions (rich names, constants of the code as names, damaged documents the parser
+    accepts) judged by RenderTrace with this property's tags"""
+    n = n or (240 if tier == "quick" else 4000)
+    trace = os.path.join(c.OUT, "traces", "%s-parsed-schema.ndjson" % pid)
+    rtrace = os.path.join(c.OUT, "traces", "%s-parsed-render.ndjson" % pid)
+    c.harness(["schema-record", "--seed", c.seed() + 17, "--n", n, "--damage", 25, "--cfgs", 1, "--out", trace, "--render-trace", rtrace])
+    cnt_n, infos, st = c.judge_trace("RenderTrace", rtrace, "%s-rt-parsed" % pid, timeout=1800)
+    events = c.read_ndjson(rtrace)
+    cnt, drift = classify(rep, infos, relevant, events, "parsed sessions")
+    rep.add(evaluations=sum(len(e["renders"]) for e in events), traces_validated_against_impl=cnt_n, parsed_sessions_rendered=cnt_n,
+            render_drift=drift, trace_states=st)
+    os.remove(trace)
+    return cnt
+
+
 def keyword_pools(tier):
     """all reserved words of convert_string are covered across the keyword pools; quick runs two of them per seed"""
     ks = ["keywords%d" % i for i in range(2, 10)]
